@@ -9,6 +9,7 @@ package headers
 // their shape only when they contain no ':' at all (a password may itself contain ':').
 //@ func (h *Authorization) Unmarshal
 //@   assert[C10]@return#6 strcount(string(tmp), ":") == 0
+//@   ensures[C10] err == nil && h.Method == AuthMethodBasic ==> strcount(h.Username, ":") == 0
 //@   modifies fields(h), fresh
 
 // Frame of the Transport parser, used where Transports.Unmarshal calls it in a loop; its own
